@@ -806,6 +806,144 @@ def shrink_run(case, fails):
   return cur
 
 
+
+# ----------------------------------------------------------------------------- signals (flip masks, top-k accuracy, cross entropy)
+
+def _q(x):
+  """[num, den] -> driver rational"""
+  return {'n': x[0], 'd': x[1]}
+
+
+def _f(x):
+  return x[0] / x[1]
+
+
+def gen_signal_cases(rng, quick):
+  dy = lambda lo=0, hi=16: [rng.randrange(lo, hi + 1), 16]
+  for name in ('binary_flip_mask', 'neg_to_pos_flip_mask', 'pos_to_neg_flip_mask'):
+    for b in (False, True):
+      for m in (False, True):
+        yield {'t': 'signal', 'name': name, 'threshold': None, 'base': b, 'model': m}
+    for _ in range(8 if quick else 200):
+      n = rng.randrange(0, 7)
+      yield {'t': 'signal', 'name': name, 'threshold': dy(), 'base': [dy() for _ in range(n)],
+             'model': [dy() for _ in range(n)]}
+  for _ in range(60 if quick else 2000):
+    n = rng.randrange(1, 7)
+    while True:
+      scores = [[rng.randrange(0, 64), 64] for _ in range(n)]
+      weights = [[rng.choice([16, 8, 24, 32]), 16] for _ in range(n)] if rng.random() < .5 else [[1, 1]] * n
+      w = [a[0] * b[0] * 1024 // (a[1] * b[1]) for a, b in zip(scores, weights)]
+      if len(set(w)) == n:
+        break
+    yield {'t': 'signal', 'name': 'topk_accurate', 'scores': scores, 'weights': weights,
+           'label': rng.randrange(0, n + (1 if rng.random() < .1 else 0)),
+           'k': rng.choice([1, 1, 2, 3, n, n + 1, 0] if rng.random() < .2 else [1, 2, 3])}
+  for name in ('binary_cross_entropy', 'categorical_cross_entropy'):
+    for _ in range(30 if quick else 800):
+      n = rng.randrange(1, 6)
+      ys = [[rng.choice([0, 1]), 1] for _ in range(n)]
+      if rng.random() < .1:
+        ys[rng.randrange(n)] = [rng.choice([2, -1, 1]), rng.choice([1, 2])]
+      ps = [[rng.randrange(1, 16), 16] for _ in range(n)]
+      yield {'t': 'signal', 'name': name, 'y_true': ys, 'y_pred': ps}
+
+
+def run_signal(case):
+  from ml_metrics._src.signals import cross_entropy, flip_masks, topk_accuracy
+  name = case['name']
+  with warnings.catch_warnings():
+    warnings.simplefilter('ignore')
+    try:
+      if name.endswith('flip_mask'):
+        fn = getattr(flip_masks, name)
+        if case['threshold'] is None:
+          return {'out': int(bool(fn(np.bool_(case['base']), np.bool_(case['model']))))}
+        r = fn(np.array([_f(x) for x in case['base']]), np.array([_f(x) for x in case['model']]),
+               threshold=_f(case['threshold']))
+        return {'out': [int(v) for v in np.asarray(r).tolist()]}
+      if name == 'topk_accurate':
+        r = topk_accuracy.topk_accurate(np.array([_f(x) for x in case['scores']]), case['label'],
+                                        np.array([_f(x) for x in case['weights']]), case['k'])
+        return {'out': bool(r)}
+      fn = getattr(cross_entropy, name)
+      r = fn(np.array([_f(x) for x in case['y_true']]), np.array([_f(x) for x in case['y_pred']]))
+      return {'value': canon_value(float(r))}
+    except Exception as e:  # pylint: disable=broad-except
+      return {'err': err_kind(e)}
+
+
+def signal_request(case):
+  name = case['name']
+  req = {'model': 'signals', 'name': name}
+  if name.endswith('flip_mask'):
+    if case['threshold'] is None:
+      req.update(threshold=None, base_pred=case['base'], model_pred=case['model'])
+    else:
+      req.update(threshold=_q(case['threshold']), base_pred=[_q(x) for x in case['base']],
+                 model_pred=[_q(x) for x in case['model']])
+  elif name == 'topk_accurate':
+    req.update(scores=[_q(x) for x in case['scores']], weights=[_q(x) for x in case['weights']],
+               label=case['label'], k=case['k'])
+  else:
+    req.update(y_true=[_q(x) for x in case['y_true']], y_pred=[_q(x) for x in case['y_pred']])
+  return req
+
+
+def signal_model_obs(resp):
+  if 'err' in resp:
+    return {'err': resp['err']}
+  if 'terms' in resp:
+    tot = 0.0
+    for t in resp['terms']:
+      c, a = rat_to_float(t['c']), rat_to_float(t['a'])
+      if c != 0:
+        tot += c * math.log(a)
+    return {'value': tot}
+  return {'out': resp['out']}
+
+
+def signal_oracle(case, obs):
+  """textbook definitions of the signals (from their docstrings / the usual formulas)"""
+  name = case['name']
+  if name.endswith('flip_mask'):
+    if 'err' in obs:
+      return f"{name} raised {obs['err']}"
+    if case['threshold'] is None:
+      pairs, got = [(int(case['base']), int(case['model']))], [obs['out']]
+      t = 0.5
+    else:
+      pairs = [(_f(b), _f(m)) for b, m in zip(case['base'], case['model'])]
+      got, t = obs['out'], _f(case['threshold'])
+    for (b, m), g in zip(pairs, got):
+      want = {'binary_flip_mask': int((b > t) != (m > t)), 'neg_to_pos_flip_mask': int(b <= t < m),
+              'pos_to_neg_flip_mask': int(b > t >= m)}[name]
+      if g != want:
+        return f'{name}(base={b}, model={m}, threshold={t}) = {g}, definition gives {want}'
+    return None
+  if name == 'topk_accurate':
+    n, k, lab = len(case['scores']), case['k'], case['label']
+    if k < 1 or lab >= n:
+      return None       # outside the documented domain (label in [0, n), k >= 1)
+    w = [_f(a) * _f(b) for a, b in zip(case['scores'], case['weights'])]
+    want = sum(1 for x in w if x > w[lab]) < k
+    if obs.get('out') != want:
+      return f'topk_accurate = {obs}, label is{"" if want else " not"} among the {k} largest weighted scores'
+    return None
+  ys, ps = [_f(y) for y in case['y_true']], [_f(p) for p in case['y_pred']]
+  if any(y not in (0, 1) for y in ys):
+    return None if obs.get('err') == 'ValueError' else f'labels outside {{0,1}} accepted: {obs}'
+  if 'err' in obs:
+    return f"{name} raised {obs['err']}"
+  if name == 'binary_cross_entropy':
+    want = -sum(math.log(p if y == 1 else 1 - p) for y, p in zip(ys, ps)) / len(ys)
+  else:
+    tot = sum(ps)
+    want = -sum(math.log(p / tot) for y, p in zip(ys, ps) if y == 1)
+  if not close(float(obs['value']), want, 1e-9, 1e-12):
+    return f"{name} = {obs['value']}, definition gives {want}"
+  return None
+
 # ----------------------------------------------------------------------------- C07
 
 RATES_TOL = 1e-9
@@ -827,7 +965,7 @@ def perfect_square_cms(limit=9):
 
 
 class C07:
-  LEAN_MODULES = ['MlModel.Properties.C07.Classification']
+  LEAN_MODULES = ['MlModel.Properties.C07.Classification', 'MlModel.Properties.C07.ClassificationSignals']
   TRUSTED = TRUSTED
   ASSUMPTIONS = ASSUMPTIONS
   RULE = ('(1) translator validation: every ConfusionMatrixMetric member evaluated by derive_metric on small-exhaustive '
@@ -907,6 +1045,8 @@ class C07:
         b = gen_batch(rng, it, labels, rng.choice([1, 3, 6]), width=rng.choice([1, 2]) if av == 'binary' else 3,
                       pos=cfg['pos_label'])
         yield {'t': 'run', 'kind': 'wrapper', 'cfg': cfg, 'shards': [[b]], 'trees': [0], 'fn': fname}
+    # (6) signals
+    yield from gen_signal_cases(rng, quick)
     # (5) malformed data
     for _ in range(150 if quick else 2500):
       kind, it, av = rng.choice(valid_combos())
@@ -941,6 +1081,8 @@ class C07:
 
   @staticmethod
   def run_impl(case):
+    if case['t'] == 'signal':
+      return run_signal(case)
     if case['t'] == 'rates':
       agg, _ = _mods()
       rows = []
@@ -964,6 +1106,8 @@ class C07:
 
   @staticmethod
   def model_requests(case):
+    if case['t'] == 'signal':
+      return [signal_request(case)]
     if case['t'] == 'rates':
       return [dict(model='aggclassification', op='rates', cms=case['cms'])]
     if case.get('fn'):
@@ -972,6 +1116,8 @@ class C07:
 
   @staticmethod
   def model_obs(case, resps):
+    if case['t'] == 'signal':
+      return signal_model_obs(resps[0])
     if case['t'] == 'rates':
       return {'rows': [{k: (v if isinstance(v, str) else (surd_float(v) if 'a' in v else rat_to_float(v)))
                         for k, v in row.items()} for row in resps[0]['rows']]}
@@ -988,7 +1134,7 @@ class C07:
       fa.pop('stage', None)
       fb.pop('stage', None)
       ok = deep_close(fa, fb, rel=RATES_TOL, abs_=1e-9) and same_obs(a['acc'], b['acc'])
-    elif 'rows' in a:
+    elif 'rows' in a or 'out' in a or 'value' in a:
       ok = deep_close(a, b, rel=RATES_TOL, abs_=1e-9)
     else:
       ok = same_obs(a, b)
@@ -996,6 +1142,8 @@ class C07:
 
   @staticmethod
   def oracle(case, obs):
+    if case['t'] == 'signal':
+      return signal_oracle(case, obs)
     if case['t'] == 'rates':
       for cmv, row in zip(case['cms'], obs['rows']):
         for m, f in SPEC.items():
@@ -1035,7 +1183,7 @@ class C07:
       return None
     return check_against_textbook(case, obs, batches)
 
-  nontrivial = staticmethod(lambda case, obs: case['t'] == 'rates' or (
+  nontrivial = staticmethod(lambda case, obs: case['t'] in ('rates', 'signal') or (
       sum(len(py_rows(b['yt'])) for s in case['shards'] for b in s) >= 2 and 'err' not in (obs.get('fn') or obs)))
   finding = staticmethod(finding_class)
 
